@@ -17,12 +17,22 @@ if seed:
 try:
     mod = importlib.import_module('props.' + pid)
     tmp = tempfile.mkdtemp(); log = []
-    area = getattr(mod, 'AREA', 'base'); impl = check.build_impl(tmp, log, area=area, extra_flags=getattr(mod, 'IMPL_FLAGS', ''))
-    ctx = {'tmp': tmp, 'tier': tier, 'seed': int(os.environ.get('VERIF_SEED', '1')), 'verif': '/verif', 'impl': impl, 'model': '/verif/ocaml/driver_' + area,
-           'run_driver': check.run_driver, 'build_impl': check.build_impl, 'sh': check.sh, 'log': log, 'repo': check.REPO}
+    area = getattr(mod, 'AREA', 'base'); areas = list(getattr(mod, 'AREAS', [area])); flags = getattr(mod, 'IMPL_FLAGS', '')
+    impls = {a: check.build_impl(tmp, log, area=a, name='impl_' + a, extra_flags=(flags.get(a, '') if isinstance(flags, dict) else flags)) for a in areas}
+    models = {a: '/verif/ocaml/driver_' + a for a in areas}
+    ctx = {'tmp': tmp, 'tier': tier, 'seed': int(os.environ.get('VERIF_SEED', '1')), 'verif': '/verif', 'impl': impls[areas[0]], 'model': models[areas[0]],
+           'impls': impls, 'models': models, 'run_driver': check.run_driver, 'build_impl': check.build_impl, 'sh': check.sh, 'log': log, 'repo': check.REPO}
     cases = mod.corpus(ctx) + mod.generate(ctx)
     lines = [c.line for c in cases]
-    t = time.time(); io, _ = check.run_driver(impl, lines, tmp); t1 = time.time(); mo, _ = check.run_driver(ctx['model'], lines, tmp); t2 = time.time()
+    def run_by_area(exes):
+        outs = [None] * len(cases)
+        for a in areas:
+            idx = [i for i, c in enumerate(cases) if c.info.get('area', areas[0]) == a]
+            if not idx: continue
+            o, _ = check.run_driver(exes[a], [lines[i] for i in idx], tmp)
+            for i, r in zip(idx, o): outs[i] = r
+        return [x if x is not None else 'NOOUTPUT' for x in outs]
+    t = time.time(); io = run_by_area(impls); t1 = time.time(); mo = run_by_area(models); t2 = time.time()
     bad = mism = 0
     for c, i, m in zip(cases, io, mo):
         v = mod.verdict(c, i, ctx)
